@@ -22,6 +22,7 @@ RULE = (
     "worker processes (Pydantic v2 / MCP_FORCE_FALLBACK=1) and accept/reject, model-variant names at every level and the by-alias exclude-none dump are compared type-strictly; "
     "small models additionally get every optional-field subset; non-trivial = the case exercises a Union/Literal-typed field, an alias, an extra member, an interesting id "
     "(0, negative, digit string, >=2^63) or an invariant boundary; distinct = distinct (class, wire object)"
+    "; added in rounds 6-7 of the seeded changes: every Optional member as an explicit null; integer ids spelt as floats"
 )
 ASSUMPTIONS = [
     "spec-valid = type-valid by the model's own annotations and bounds, optional members absent rather than null, URIs for fields named uri start with file://",
